@@ -312,13 +312,13 @@ def vec_random(rng, kind, nops):
         (1, lambda: "dsetss %s %s" % (D(), X())), (1, lambda: "dassignss %s %s" % (D(), X())), (2, lambda: "dmaddss %s %s %s" % (D(), scal(), X())),
         (8, lambda: "sadd %s %d %s" % (S(), ix(), val())),
         (2, lambda: "saddn %s %s" % (S(), " ".join("%d %s" % (rng.randrange(n), val()) for _ in range(rng.randrange(0, 4))))),
-        (2, lambda: "srm %s %d" % (S(), rng.randrange(-1, 5))), (1, lambda: "srmrs %s %d %d" % (S(), rng.randrange(0, 3), rng.randrange(0, 4))),
+        (2, lambda: "srm %s %d" % (S(), rng.randrange(-1, 5))), (0.3, lambda: "srmrs %s %d %d" % (S(), rng.randrange(0, 3), rng.randrange(0, 4))),
         (1, lambda: "sclear " + S()), (2, lambda: "sscale %s %s" % (S(), scal())), (3, lambda: "ssort " + S()),
         (2, lambda: "sassign %s %s" % (S(), S())), (2, lambda: "sfromd %s %s" % (S(), D())),
         (3, lambda: "sdot %s %s" % (S(), S())), (1, lambda: "smaxabs " + S()), (1, lambda: "sminabs " + S()), (1, lambda: "slen2 " + S()),
         (1, lambda: "sdim " + S()), (1, lambda: "spos %s %d" % (S(), ix())), (1, lambda: "sget %s %d" % (S(), ix())),
         (1, lambda: "stimes %s %s %s" % (S(), S(), scal() if rng.random() < 0.9 else "0/1")), (1, lambda: "sunit %s %d" % (S(), rng.randrange(n))),
-        (5, lambda: "xset %s %d %s" % (X(), ix(), val() if rng.random() < 0.93 else TINY)), (2, lambda: "xadd %s %d %s" % (X(), ix(), val(0.0))),
+        (5, lambda: "xset %s %d %s" % (X(), ix(), val() if (kind == "vecd" or rng.random() < 0.93) else TINY)), (2, lambda: "xadd %s %d %s" % (X(), ix(), val(0.0))),
         (2, lambda: "xclearidx %s %d" % (X(), ix())), (1, lambda: "xclearnum %s %d" % (X(), rng.randrange(0, 4))), (1, lambda: "xclear " + X()),
         (3, lambda: "xsetup " + X()), (2, lambda: "xunsetup " + X()), (1, lambda: "xscale %s %s" % (X(), scal())),
         (2, lambda: "xadddv %s %s" % (X(), D())), (1, lambda: "xsubdv %s %s" % (X(), D())), (1, lambda: "xmadddv %s %s %s" % (X(), scal(), D())),
@@ -468,7 +468,7 @@ def arr_random(rng, kind, nops):
         elif r < 0.88:
             ops.append("resize %d" % rng.randrange(0, 12))
         elif r < 0.93:
-            ops.append("remax %d" % rng.randrange(0, 30))
+            ops.append("remaxs %d" % rng.randrange(0, 30))
         elif r < 0.97:
             ops.append("copy")
         else:
@@ -524,6 +524,9 @@ PROBES = [
     ("didx 2", ["addidx 3", "addidx 1", "addidx 4", "rmr 1 2"]),
     ("ar", ["append 1", "append 2", "append 3", "insert 1 9 8"]),
     ("ar", ["append 1", "append 2", "insert 2 9"]),
+    ("da", ["appendn 1 2 3 4 5 6 7 8", "remax 2"]),
+    ("vecr 4", ["sadd S0 0 1/1", "sadd S0 1 2/1", "sadd S0 2 3/1", "sadd S0 3 4/1", "srmrs S0 0 1"]),
+    ("vecr 4", ["sadd S0 0 1/1", "sadd S0 1 2/1", "sadd S0 2 3/1", "srmrs S0 0 1"]),
     ("ns 2 8", ["add 1", "add 2", "add 3", "add 4", "add 5", "rmnums 0 1 4"]),
     ("ns 2 8", ["add 1", "add 2", "add 3", "add 4", "rmnums 2 3"]),
     ("ns 2 8", ["add 1", "add 2", "add 3", "add 4", "rmnums 3 0 1"]),
@@ -571,7 +574,7 @@ def generate(ck):
     ls_al = ["append 0", "append 1", "prepend 2", "insert 3 0", "insert 4 1", "remove 0", "remove 1", "remove 2", "removenext 0", "removenext 2", "clear"]
     for kind in ("isl", "idl"):
         cases += list(exhaustive(kind, ls_al, L, ([], ["append 5", "append 6", "append 7"])))
-    ar_al = ["append 1", "appendn 2 3", "insert 0 4", "insert 1 5 6", "remove 0 1", "remove 1 2", "removelast 1", "resize 1", "resize 4", "clear", "copy", "remax 1"]
+    ar_al = ["append 1", "appendn 2 3", "insert 0 4", "insert 1 5 6", "remove 0 1", "remove 1 2", "removelast 1", "resize 1", "resize 4", "clear", "copy", "remaxs 1", "remaxs 3"]
     for kind in ("da", "ca"):
         cases += list(exhaustive(kind, ar_al, L, ([], ["appendn 7 8 9"])))
     cases += list(exhaustive("ar", [a for a in ar_al if not a.startswith("insert")], L, ([], ["appendn 7 8 9"])))
@@ -640,6 +643,45 @@ def judge(case, hl, hstat, ml, j):
     return sig, "implementation and model disagree after %r in fields %s" % (op, df), clauses
 
 
+# recorded findings: every mismatch signature kind:operation:fields is mapped to the name of the defect it exhibits
+CANON = [
+    (r"cs:copy:.*|csp:copy:.*", "classset-copy-constructor"),
+    (r"csp:(remax|assign):raw", "classset-remax-assigns-to-raw-memory"),
+    (r"vec[dr]:sfromss:.*", "svector-assign-from-ssvector-is-empty"),
+    (r"vec[dr]:srmrs?:.*", "svector-remove-range"),
+    (r"vec[dr]:xdot:ret", "ssvector-dot-needs-sorted-indices"),
+    (r"lp[rc]s:rmn:vecs", "lprowset-lpcolset-remove-nums-scalars"),
+    (r"(svs|lprs|lpcs):(copy|assign):.*", "svset-assign-all-vectors-empty"),
+    (r"d?idx:rmr:.*", "idxset-remove-range-at-end"),
+    (r"ar:insert:.*", "array-insert-off-by-one"),
+    (r"da:remax:.*", "dataarray-remax-below-size"),
+]
+
+
+def canonical(sig):
+    import re
+    for rx, name in CANON:
+        if re.fullmatch(rx, sig):
+            return name
+    return sig
+
+
+def probe_minabs(result):
+    """VectorBase<R>::minAbs() is never instantiated by the library; compile the branch of the harness that calls it"""
+    import hashlib
+    src = os.path.join(vlib.ROOT, "harness", "C19.cpp")
+    key = hashlib.sha256(open(src, "rb").read()).hexdigest()[:12]
+    stamp = os.path.join(vlib.tree_dir(), "minabs-%s.txt" % key)
+    if os.path.exists(stamp):
+        result.append(open(stamp).read())
+        return
+    rc, out, err = vlib.sh(["g++"] + vlib.base_flags("-O0") + ["-DC19_PROBE_MINABS", "-fsyntax-only", src], timeout=900)
+    msg = "ok" if rc == 0 else "error: " + "\n".join(l for l in (out + err).splitlines() if "error" in l)[:600]
+    with open(stamp, "w") as f:
+        f.write(msg)
+    result.append(msg)
+
+
 class Runner:
     def __init__(self, exe, model):
         self.exe, self.model = exe, model
@@ -651,7 +693,7 @@ class Runner:
         rc, m, err = run_model(self.model, cases, tag + str(self.n))
         return h, rc, m, err
 
-    def fails(self, case, sigkind):
+    def fails(self, case, sigkind0):
         """does this (candidate, shrunk) case still show a mismatch of the same operation kind?"""
         h, rc, m, err = self.both([case], "s")
         if rc != 0 or not m:
@@ -661,7 +703,7 @@ class Runner:
         if j is None:
             return None
         sig, what, clauses = judge(case, hl, hstat, m[0], j)
-        if sig.split(":")[:2] != sigkind.split(":")[:2]:
+        if canonical(sig) != sigkind0 and sig.split(":")[:2] != sigkind0.split(":")[:2]:
             return None
         return (j, hl, hstat, m[0])
 
@@ -695,6 +737,11 @@ class Runner:
 
 def main():
     ck = vlib.Check("C19", "proof")
+    rdir = os.path.join(vlib.ROOT, "replays", "C19")
+    if os.path.isdir(rdir) and not ck.args.replay:
+        for f in os.listdir(rdir):          # replays of earlier runs of this property
+            if f.endswith(".json"):
+                os.remove(os.path.join(rdir, f))
     proved = ck.prove() if not os.environ.get("C19_DEV_NOPROVE") else True
     try:
         exe = vlib.build_harness("C19")
@@ -714,6 +761,11 @@ def main():
     else:
         cases = generate(ck)
 
+    import threading
+    minabs = []
+    th = threading.Thread(target=probe_minabs, args=(minabs,))
+    if not ck.args.replay:
+        th.start()
     rn = Runner(exe, model)
     h, rc, m, err = rn.both(cases, "r")
     if rc != 0:
@@ -737,6 +789,7 @@ def main():
         if j is None:
             continue
         sig, what, clauses = judge(case, hl, hstat, ml, j)
+        sig = canonical(sig)
         small = case
         if sig not in shrunk and len(shrunk) < 12:
             shrunk.add(sig)
@@ -745,7 +798,7 @@ def main():
             if r is not None:
                 j2, hl2, hstat2, ml2 = r
                 sig2, what, clauses = judge(small, hl2, hstat2, ml2, j2)
-                hl, ml, j = hl2, ml2, j2
+                hl, ml, j, hstat = hl2, ml2, j2, hstat2
             else:
                 small = {"kind": case["kind"], "ops": case["ops"][:j]}
         else:
@@ -766,6 +819,14 @@ def main():
                 what += "; violated: " + ", ".join(str(c) for c in clauses)
             ck.violation(sig, what + "\n impl : %s\n model: %s" % (replay["implementation"], replay["model"]), replay)
 
+    if not ck.args.replay:
+        th.join()
+        ck.cov["minabs_compile_probe"] = minabs[0] if minabs else "not run"
+        if minabs and minabs[0] != "ok":
+            ck.violation("vectorbase-minabs-does-not-compile",
+                         "VectorBase<R>::minAbs() does not compile when instantiated: %s" % minabs[0],
+                         {"case": {"kind": "compile", "ops": ["g++ -DC19_PROBE_MINABS -fsyntax-only harness/C19.cpp"]},
+                          "implementation": minabs[0], "model": "dv_minabs is defined for every non-empty vector"})
     ck.cov["rule"] = ("a case is an operation sequence on one container; an evaluation is one executed operation whose complete "
                       "observation (all public lookups + internal free list) equals the model's; distinct = distinct "
                       "(kind, state before, operation) triples")
